@@ -12,7 +12,7 @@ RULE = ("the crash matrix, enumerated: panic origin {user code before the drop (
         "out of range, inputs not matched, single-use value twice, explicit panics(), missing real function, missing default body} x topology "
         "{original only; clone alive on the same thread; the panicking scope owns a clone; original with delegation helper; original holding a "
         "lent clone; scope left on a foreign thread} x {expectations met, unmet}; the instance is owned by the scope that panics (callown / "
-        "drop-while-unwinding events), a second panic aborts the harness process and is observed as a crash; followed by further calls and "
+        "drop-while-unwinding / verify()-from-a-scope-guard-while-unwinding events), a second panic aborts the harness process and is observed as a crash; followed by further calls and "
         "verification of the survivors (the mock stays usable). distinct = canonical JSON; non-trivial = an instance is dropped while unwinding")
 
 # clause sets: (terms, list of (mid, arg) probes that panic for the named reason)
@@ -65,11 +65,17 @@ def make_case(origin, terms, probe, arm, topo, variant):
     elif variant == "call_then_unwinding_drop":
         evs.append({"base": ("call", inst, mid, arg)})
         e = {"base": ("drop", inst), "unwinding": True}
+    elif variant == "call_then_unwinding_verify":
+        evs.append({"base": ("call", inst, mid, arg)})
+        e = {"base": ("verify", inst), "unwinding": True}
     else:  # plain caught panic, instance survives
         e = {"base": ("call", inst, mid, arg)}
     if other:
         e["other"] = True
     evs.append(e)
+    # the same call once more through whatever instance survives: a caught panic must not have broken the pattern
+    evs.append({"base": ("call", 0, mid, arg)})
+    evs.append({"base": ("call", 1, mid, arg)})
     # afterwards: the survivors are still usable and verification reflects what was matched
     evs.append({"base": ("call", 0, 1, 0)})
     evs.append({"base": ("call", 1, 1, 0)})
@@ -83,13 +89,15 @@ def gen_cases(rng, tier):
     out = []
     for (origin, terms, probe, arm) in configs():
         for topo in TOPOLOGIES:
-            for variant in ("callown", "call_then_unwinding_drop", "caught"):
+            for variant in ("callown", "call_then_unwinding_drop", "call_then_unwinding_verify", "caught"):
+                if variant == "call_then_unwinding_verify" and topo == "scope_owns_clone":
+                    continue      # verify() on a clone panics by contract (C09); not a drop
                 out.append(make_case(origin, terms, probe, arm, topo, variant))
     return out
 
 
 def nontrivial(case):
-    if case["_variant"] == "call_then_unwinding_drop":
+    if case["_variant"] in ("call_then_unwinding_drop", "call_then_unwinding_verify"):
         return True
     return case["_variant"] == "callown" and case["_origin"] != "none"
 
